@@ -51,7 +51,7 @@ func typeCheck(src []byte) (problems []string, file *ast.File) {
 	impMu.Lock()
 	defer impMu.Unlock()
 	fset := impFset
-	f, err := parser.ParseFile(fset, "g.peg.go", src, parser.ParseComments)
+	f, err := parser.ParseFile(fset, "g.peg.go", src, parser.ParseComments|parser.SkipObjectResolution)
 	if err != nil {
 		return []string{"go/parser: " + err.Error()}, nil
 	}
@@ -174,6 +174,57 @@ func c08Features(g *gram.Grammar, feat map[string]bool) []string {
 	return risk
 }
 
+// degenerateGrammar builds a grammar that consumes nothing at all: only actions, predicates,
+// state changes, empty expressions, lookaheads over those and references to later rules.
+func degenerateGrammar(t *rapid.T) *gram.Grammar {
+	n := rapid.IntRange(1, 3).Draw(t, "dn")
+	g := &gram.Grammar{Package: "g", Struct: "G"}
+	var elem func(i, depth int) *gram.Expr
+	elem = func(i, depth int) *gram.Expr {
+		k := rapid.IntRange(0, 8).Draw(t, "dk")
+		if depth <= 0 && k >= 5 {
+			k = 0
+		}
+		switch k {
+		case 0:
+			return &gram.Expr{K: gram.KAct}
+		case 1:
+			return &gram.Expr{K: gram.KPred, Pred: rapid.IntRange(0, 1).Draw(t, "dpred")}
+		case 2:
+			return &gram.Expr{K: gram.KState}
+		case 3:
+			return &gram.Expr{K: gram.KEmpty}
+		case 4:
+			if i+1 < n {
+				return gram.Ref(rapid.IntRange(i+1, n-1).Draw(t, "dref"))
+			}
+			return &gram.Expr{K: gram.KAct}
+		case 5:
+			return gram.Un(gram.KCap, elem(i, depth-1))
+		case 6:
+			return gram.Un(rapid.SampledFrom([]gram.Kind{gram.KAnd, gram.KNot, gram.KOpt}).Draw(t, "dun"), elem(i, depth-1))
+		case 7:
+			return gram.Seq(elem(i, depth-1), elem(i, depth-1))
+		default:
+			e := gram.Alt(elem(i, depth-1), elem(i, depth-1))
+			e.EmptyLast = rapid.Bool().Draw(t, "dempty")
+			return e
+		}
+	}
+	for i := 0; i < n; i++ {
+		g.Rules = append(g.Rules, &gram.Rule{Name: fmt.Sprintf("R%d", i), Body: elem(i, 2)})
+	}
+	// every rule reachable
+	reach := g.Reachable()
+	for j := 1; j < n; j++ {
+		if !reach[j] {
+			g.Rules[0].Body = gram.Seq(g.Rules[0].Body, gram.Ref(j))
+		}
+	}
+	g.Number()
+	return g
+}
+
 func c08Gen(t *rapid.T, openShapes map[string]drv.Finding, maxExtra int) genCase {
 	prof := rapid.SampledFrom([]string{"plain", "switchy", "liney", "deep", "backtracky", "switchy"}).Draw(t, "profile")
 	p := gram.Profiles[prof]
@@ -182,8 +233,13 @@ func c08Gen(t *rapid.T, openShapes map[string]drv.Finding, maxExtra int) genCase
 	p.WPred += 3
 	p.WState += 2
 	var g *gram.Grammar
+	degenerate := rapid.IntRange(0, 19).Draw(t, "degenerate") == 0
 	for tries := 0; ; tries++ {
-		g = gram.WellFormedGrammar(t, p)
+		if degenerate {
+			g = degenerateGrammar(t)
+		} else {
+			g = gram.WellFormedGrammar(t, p)
+		}
 		if g.WellFormed() || tries > 20 {
 			break
 		}
@@ -191,6 +247,9 @@ func c08Gen(t *rapid.T, openShapes map[string]drv.Finding, maxExtra int) genCase
 	_, g4open := openShapes["pred-line-comment"]
 	feat := gram.Decorate(t, g, gram.DecorateOpts{NoLineCommentInPredicate: g4open, MaxExtraRules: maxExtra})
 	g.Package, g.Struct = "g", "G"
+	if degenerate {
+		feat["grammar-without-terminals"] = true
+	}
 	cs := genCase{G: g, Features: feat}
 	if rapid.IntRange(0, 2).Draw(t, "spell?") == 0 {
 		cs.Spell = rapid.SliceOfN(rapid.IntRange(0, 1<<12), 16, 16).Draw(t, "spell")
@@ -351,7 +410,7 @@ func init() {
 		return "", nil
 	})
 	drv.Register("C08",
-		"rapid-generated grammar texts: well-formed ASTs of all profiles (U+10FFFF, control, quote, backslash and non-ASCII runes in literals and classes) decorated with explicit action/predicate/state-change code (block and line comments, nested braces, comment markers inside strings, raw strings), user imports used in struct fields (aliased, sub-packages, duplicating runtime imports, grouped), header comments, and up to 300 (quick) / 1200 (thorough) extra rules with the boundaries 252-257 hit deliberately; rendered with drawn spelling variants. For each of the eight option sets: the front end accepts, Compile returns nil, go/parser and go/types (source importer) report nothing, format.Source(out)==out, and the import specs are exactly runtime needs + user imports. A sample additionally goes through the real go build and gofmt -l (go vet is not part of the statement: it reports unreachable code in correct parsers). Non-trivial: the grammar has at least one risk feature (listed in classes); distinct = distinct grammar text.",
+		"rapid-generated grammar texts: well-formed ASTs of all profiles (U+10FFFF, control, quote, backslash and non-ASCII runes in literals and classes) decorated with explicit action/predicate/state-change code (block and line comments, nested braces, comment markers inside strings, raw strings), user imports used in struct fields (aliased, sub-packages, duplicating runtime imports, grouped), header comments, and up to 300 (quick) / 1200 (thorough) extra rules with rule-constant totals 253-258 hit deliberately (thorough: also 65534-65537, the uint16/uint32 boundary); rendered with drawn spelling variants. For each of the eight option sets: the front end accepts, Compile returns nil, go/parser and go/types (source importer) report nothing, format.Source(out)==out, and the import specs are exactly runtime needs + user imports. A sample additionally goes through the real go build and gofmt -l (go vet is not part of the statement: it reports unreachable code in correct parsers). Non-trivial: the grammar has at least one risk feature (listed in classes); distinct = distinct grammar text.",
 		[]string{
 			"rule names do not collide with reserved identifiers and action code is valid Go (the statement's precondition); action snippets do not mention text/begin/end",
 			"go/types with the source importer agrees with the compiler (cross-checked on the ground-truth sample)",
@@ -361,6 +420,54 @@ func init() {
 			if err != nil || len(c.Violations) > 0 {
 				return err
 			}
-			return c08GroundTruth(c, c.Pick(12, 120))
+			if err := c08GroundTruth(c, c.Pick(12, 120)); err != nil || len(c.Violations) > 0 || !c.Thorough() {
+				return err
+			}
+			return drv.RunSharded(c, "c08big", 4, 4, 30*time.Minute)
 		})
 }
+
+func init() {
+	// ./check --tool bigrules <n>: time the validity check of a chain grammar with n rules
+	drv.RegisterTool("bigrules", func(c *drv.Ctx, args []string) int {
+		n := 1000
+		if len(args) > 0 {
+			fmt.Sscan(args[0], &n)
+		}
+		g := &gram.Grammar{Package: "g", Struct: "G", Fields: "\n N int\n", Rules: []*gram.Rule{{Name: "R0", Body: gram.Lit("a")}}}
+		gram.AddChain(g, n-1)
+		pr := gram.Printer{G: g}
+		text := pr.Text()
+		for _, v := range []lab.Variant{lab.V0, lab.N0} {
+			t0 := time.Now()
+			what := checkGenerated(text, v, nil)
+			fmt.Printf("%d rules, %q: %v %s\n", n, v.Flags(), time.Since(t0), firstLine(what))
+		}
+		return 0
+	})
+}
+
+// c08BigShard checks one grammar whose rule constants total exactly a boundary of the
+// rule-number type (uint16 -> uint32 at 65536). Thorough tier only: ~30 s per option set.
+func c08BigShard(c *drv.Ctx, shard, checks int) (*drv.Stats, *drv.Violation, error) {
+	st := drv.NewStats()
+	total := []int{65534, 65535, 65536, 65537}[shard%4]
+	g := &gram.Grammar{Package: "g", Struct: "G", Fields: "\n N int\n", Rules: []*gram.Rule{{Name: "R0", Body: gram.Seq(gram.Lit("a"), gram.Act())}}}
+	g.Rules[0].Body.Kids[1].Code = " p.N++ "
+	gram.AddChain(g, total-2) // R0 + one action + chain
+	g.Number()
+	pr := gram.Printer{G: g}
+	text := pr.Text()
+	for _, v := range []lab.Variant{lab.V0, lab.N0, lab.V1} {
+		st.Eval()
+		if what := checkGenerated(text, v, nil); what != "" {
+			cs := genCase{G: &gram.Grammar{Package: "g", Struct: "G"}, Text: text, Features: map[string]bool{fmt.Sprintf("rule-constants:exactly-%d", total): true}}
+			return st, &drv.Violation{Property: "C08", Kind: "gen-text", What: fmt.Sprintf("grammar with exactly %d rule constants: %s", total, what), Case: &cs}, nil
+		}
+		st.Nontrivial(drv.Hash("big", fmt.Sprint(total), v.Name))
+		st.Class(fmt.Sprintf("risk:rule-constants:exactly-%d", total))
+	}
+	return st, nil, nil
+}
+
+func init() { drv.RegisterShard("c08big", c08BigShard) }
